@@ -64,7 +64,12 @@ type protoRec struct {
 	TS       string   `json:"ts"`
 	Origin   string   `json:"origin"`
 	SigKey   string   `json:"sigkey"`
+	// how the signer identity is spelt: class of the server name, class of the key ID
+	SName string `json:"sname"`
+	SKey  string `json:"skey"`
 }
+
+func (p *protoRec) spelling() spelling { return spelling{p.SName, p.SKey}.norm() }
 
 type step struct {
 	Op  string `json:"op"`
@@ -101,6 +106,15 @@ type rec struct {
 	IDSame  bool     `json:"idsame"`
 	Valid   []string `json:"valid"`
 	Signers []string `json:"signers"`
+	// tamper: how the names of the keys stripped on receipt are written (plain | esc | case); dup: of the second copy
+	Sp string `json:"sp"`
+	// dup (a top-level member written twice): the member, where the smuggled copy stands, the smuggled type, and
+	// the two readings of the text as the specification sees them
+	M     string     `json:"m"`
+	Pos   string     `json:"pos"`
+	STyp  string     `json:"styp"`
+	First dupSummary `json:"first"`
+	Last  dupSummary `json:"last"`
 	// probe (re-execution of a rejected trace line)
 	Probe *traceLine `json:"probe,omitempty"`
 }
@@ -138,8 +152,74 @@ func pseudoID(user string) string {
 	return string(spec.SenderIDFromPseudoIDKey(pseudoKey(user)))
 }
 
-// signerFor realises the model signer "<origin>/<sigkey>" in a room version.
-func signerFor(ver, origin, sigkey string) signer {
+// spelling: how a signer identity is spelt (NameSpellings x KeySpellings of EventIdentity.tla). Every class is
+// inside the grammar of the Matrix specification: server name = dns-name / IPv4 literal / bracketed IPv6 literal
+// with an optional port; key ID = algorithm ":" version with the version made of [a-zA-Z0-9_].
+type spelling struct{ Name, Key string }
+
+var plainSpelling = spelling{"dns", "alnum"}
+
+func (sp spelling) norm() spelling {
+	if sp.Name == "" {
+		sp.Name = "dns"
+	}
+	if sp.Key == "" {
+		sp.Key = "alnum"
+	}
+	return sp
+}
+
+func (sp spelling) String() string { return "name=" + sp.Name + ",key-id=" + sp.Key }
+
+// serverNameOf spells the model's server hs1 / hs2.
+func serverNameOf(origin, class string) string {
+	n, ok := map[string]string{"hs1": "1", "hs2": "2"}[origin]
+	if !ok {
+		panic("harness: unknown server token " + origin)
+	}
+	switch class {
+	case "dns":
+		return "hs" + n + ".example.org" // = hs1 / hs2
+	case "port":
+		return "hs" + n + ".example.org:8448"
+	case "ipv4":
+		return "203.0.113." + n
+	case "ipv4port":
+		return "203.0.113." + n + ":8448"
+	case "ipv6":
+		return "[2001:db8::" + n + "]"
+	case "ipv6port":
+		return "[2001:db8::" + n + "]:8448"
+	case "label": // one label, with digits and a hyphen
+		return "hs" + n + "-matrix"
+	case "long": // 207 characters in labels of at most 63
+		return "hs" + n + "." + strings.Repeat("a", 63) + "." + strings.Repeat("b", 63) + "." + strings.Repeat("c", 63) + ".example.org"
+	}
+	panic("harness: unknown server name spelling " + class)
+}
+
+// keyIDOf spells the model's key k1 / k2.
+func keyIDOf(sigkey, class string) gmsl.KeyID {
+	switch class {
+	case "alnum":
+		return gmsl.KeyID("ed25519:" + sigkey)
+	case "under": // the form Synapse generates: ed25519:a_XXXX
+		return gmsl.KeyID("ed25519:a_RXG" + sigkey)
+	case "leadunder":
+		return gmsl.KeyID("ed25519:_" + sigkey)
+	case "digits":
+		return gmsl.KeyID("ed25519:" + strings.TrimPrefix(sigkey, "k"))
+	case "upper":
+		return gmsl.KeyID("ed25519:" + strings.ToUpper(sigkey))
+	case "long": // 128 characters of all four kinds
+		return gmsl.KeyID("ed25519:" + strings.Repeat("Key_0123456789_abcdeF", 6) + sigkey)
+	}
+	panic("harness: unknown key ID spelling " + class)
+}
+
+// signerFor realises the model signer "<origin>/<sigkey>" in a room version, spelt as sp says.
+func signerFor(ver, origin, sigkey string, sp spelling) signer {
+	sp = sp.norm()
 	if isPseudo(ver) {
 		user := map[string]string{"hs1": "alice", "hs2": "bob"}[origin]
 		if sigkey == "k1" {
@@ -149,14 +229,13 @@ func signerFor(ver, origin, sigkey string) signer {
 		priv := keyFromTag("pseudo-other-" + user)
 		return signer{pseudoID(user), "ed25519:2", priv, priv.Public().(ed25519.PublicKey)}
 	}
-	name := map[string]string{"hs1": hs1, "hs2": hs2}[origin]
 	priv := keyFromTag(origin + "/" + sigkey)
-	return signer{name, gmsl.KeyID("ed25519:" + sigkey), priv, priv.Public().(ed25519.PublicKey)}
+	return signer{serverNameOf(origin, sp.Name), keyIDOf(sigkey, sp.Key), priv, priv.Public().(ed25519.PublicKey)}
 }
 
-func signerByToken(ver, tok string) signer {
+func signerByToken(ver, tok string, sp spelling) signer {
 	parts := strings.SplitN(tok, "/", 2)
-	return signerFor(ver, parts[0], parts[1])
+	return signerFor(ver, parts[0], parts[1], sp)
 }
 
 func senderFor(ver, tok string) string {
@@ -357,7 +436,7 @@ func roomFor(ver, tok string) *roomInfo {
 		return v.(*roomInfo)
 	}
 	impl := gmsl.MustGetRoomVersion(gmsl.RoomVersion(ver))
-	s := signerFor(ver, "hs1", "k1")
+	s := signerFor(ver, "hs1", "k1", plainSpelling)
 	empty := ""
 	alice := senderFor(ver, "alice")
 	ri := &roomInfo{}
@@ -424,6 +503,7 @@ func (p *provider) Valid() bool                               { return true }
 type built struct {
 	pe     gmsl.ProtoEvent
 	signer signer
+	sp     spelling // how the signer identities of the behaviour are spelt
 	now    time.Time
 	room   *roomInfo // nil for the create event of a domainless room
 }
@@ -579,7 +659,8 @@ func protoOf(ver string, p *protoRec, seed int64) built {
 			panic("harness: unknown limit token " + p.Lim)
 		}
 	}
-	out.signer = signerFor(ver, p.Origin, p.SigKey)
+	out.sp = p.spelling()
+	out.signer = signerFor(ver, p.Origin, p.SigKey, out.sp)
 	out.pe = pe
 	return out
 }
